@@ -13,6 +13,7 @@ RULE = ("line-number sequences (clean, gaps, k in {1,2,49,50,51,..} corrupted en
         "correct_scan_line_numbers on tagged records (and through read() on real files); survivors compared with the "
         "Lean model and judged by the property's own clauses. A case = one sequence; non-trivial = at least one record "
         "removed or at least one corrupted entry; distinct by (family, resolution, sequence hash)")
+RULE += (" In the thorough tier, and in the quick tier whenever the source differs from the validated baseline, a LONG-PASS stream is added (passes of 1300 .. 12000 lines, just beyond multiples of 256 .. 8192, with the property-relevant event placed at and after such multiples; DESIGN 10.4 round 13).")
 
 
 def sanitise(fmt, raw16):
